@@ -18,11 +18,18 @@ import (
 
 var c17Jobs = []string{"ja", "jb", "jc"}
 
-func c17Config(jobs []string) string {
+func c17Config(jobs []string, noClient ...string) string {
 	var sb strings.Builder
 	sb.WriteString("global:\n  scrape_interval: 15s\nscrape_configs:\n")
 	for _, j := range jobs {
 		fmt.Fprintf(&sb, "- job_name: %s\n  relabel_configs:\n  - source_labels: [dropme]\n    regex: \"yes\"\n    action: drop\n", j)
+		for _, nc := range noClient {
+			if nc == j {
+				// the job stays configured, but its HTTP client cannot be built at this reload (CA file unreadable,
+				// e.g. a secret being rotated): the scrape manager skips the job, discovery and explorer must not
+				sb.WriteString("  scheme: https\n  tls_config:\n    ca_file: /nonexistent/ca-being-rotated.pem\n")
+			}
+		}
 	}
 	if len(jobs) == 0 {
 		sb.WriteString("- job_name: placeholder\n")
@@ -93,6 +100,7 @@ type c17Step struct {
 	Jobs    []string       `json:"jobs"` // update: jobs contained; reload: configured jobs afterwards
 	Version int            `json:"version,omitempty"`
 	Sizes   map[string]int `json:"sizes,omitempty"` // per job: number of active targets (dropped = size % 3)
+	NoCli   []string       `json:"noClient,omitempty"` // reload: configured jobs whose HTTP client cannot be built this time
 }
 
 func c17GenSteps(r *core.Rng, n int) []c17Step {
@@ -114,7 +122,11 @@ func c17GenSteps(r *core.Rng, n int) []c17Step {
 				nj = []string{c17Jobs[r.Intn(3)]}
 			}
 			cfg = nj
-			steps = append(steps, c17Step{Kind: "reload", Jobs: nj})
+			st := c17Step{Kind: "reload", Jobs: nj}
+			if r.Intn(3) == 0 {
+				st.NoCli = []string{nj[r.Intn(len(nj))]}
+			}
+			steps = append(steps, st)
 			continue
 		}
 		ver++
@@ -211,7 +223,7 @@ func stepGroups(st c17Step) map[string][]*targetgroup.Group {
 func runStep(p *pipeline, st c17Step) error {
 	switch st.Kind {
 	case "reload":
-		return p.cm.ReloadFromRaw([]byte(c17Config(st.Jobs)))
+		return p.cm.ReloadFromRaw([]byte(c17Config(st.Jobs, st.NoCli...)))
 	default:
 		return p.update(stepGroups(st))
 	}
